@@ -154,3 +154,258 @@ Proof.
     rewrite Hex. reflexivity.
   - destruct (find_pool (v_pools v) uid) as [p|] eqn:E; [|destruct Hin]. destruct (p_ded p); [destruct Hin|reflexivity].
 Qed.
+
+(* ---------------------------------------------------------------- C04: CalculateStatistics = truth (the four Statistics counters) *)
+
+From Arsenal Require TlsfStep2 TlsfInv2 LinearVisit LinearInv Tlsf Linear.
+
+(* the four counters of memutils.Statistics *)
+Definition basic (d : dst) : Z * Z * Z * Z := (ds_blocks d, ds_allocs d, ds_block_bytes d, ds_alloc_bytes d).
+Definition badd (x y : Z * Z * Z * Z) : Z * Z * Z * Z :=
+  let '(a1, a2, a3, a4) := x in let '(b1, b2, b3, b4) := y in (a1 + b1, a2 + b2, a3 + b3, a4 + b4).
+
+Lemma pair4 (a b c0 d a' b' c' d' : Z) : a = a' -> b = b' -> c0 = c' -> d = d' -> (a, b, c0, d) = (a', b', c', d').
+Proof. intros; subst; reflexivity. Qed.
+
+Lemma basic_merge a b : basic (dst_merge a b) = badd (basic a) (basic b).
+Proof. reflexivity. Qed.
+
+Lemma sum_sizes_rg_t l : TlsfInv2.sum_sizes l = sum_rg (map tlsf_region l).
+Proof. induction l as [|x l IH]; cbn; [reflexivity|]. rewrite IH. reflexivity. Qed.
+
+Lemma sum_sizes_rg_l l : LinearInv.sum_sizes l = sum_rg (map lin_region l).
+Proof. induction l as [|x l IH]; cbn; [reflexivity|]. rewrite IH. reflexivity. Qed.
+
+(* one block: 1 block, its live regions, its size, their bytes *)
+Lemma meta_dstats_basic mt :
+  MInv mt -> exists d, meta_dstats mt = Some d /\
+    basic d = (1, zlen (meta_live mt), meta_size mt, sum_rg (meta_live mt)).
+Proof.
+  intros HI. destruct mt as [t|l]; cbn [MInv meta_dstats meta_live meta_size] in *.
+  - destruct HI as [HT H2]. destruct (TlsfStep2.tlsf_bookkeeping t HT H2) as (_ & _ & _ & _ & _ & _ & Hd).
+    eexists. split; [reflexivity|]. rewrite Hd. unfold TlsfStep2.dspec, basic. cbn.
+    destruct HT as [Hinv _]. rewrite (TlsfStep2.taken_regions_live t Hinv).
+    f_equal; [f_equal|]; [unfold zlen, Util.zlen; rewrite map_length; reflexivity|apply sum_sizes_rg_t].
+  - destruct (LinearVisit.add_detailed_statistics_spec l HI) as (d & Hd & Hs).
+    rewrite Hd. eexists. split; [reflexivity|]. unfold basic. cbn. rewrite Hs. cbn.
+    f_equal; [f_equal|]; [unfold zlen, Util.zlen; rewrite map_length; reflexivity|apply sum_sizes_rg_l].
+Qed.
+
+(* truth about a list of blocks *)
+Fixpoint blocks_truth (bs : list block) : Z * Z * Z * Z :=
+  match bs with
+  | [] => (0, 0, 0, 0)
+  | b :: tl => badd (1, zlen (meta_live (bk_meta b)), meta_size (bk_meta b), sum_rg (meta_live (bk_meta b))) (blocks_truth tl)
+  end.
+
+Lemma badd_assoc a b c0 : badd (badd a b) c0 = badd a (badd b c0).
+Proof. destruct a as (((a1 & a2) & a3) & a4), b as (((b1 & b2) & b3) & b4), c0 as (((c1 & c2) & c3) & c4). cbn. apply pair4; lia. Qed.
+
+Lemma blocks_dstats_basic bs : forall acc,
+  Forall (fun b => MInv (bk_meta b)) bs ->
+  exists d, blocks_dstats bs acc = Some d /\ basic d = badd (basic acc) (blocks_truth bs).
+Proof.
+  induction bs as [|b tl IH]; intros acc H; cbn [blocks_dstats blocks_truth].
+  - exists acc. split; [reflexivity|]. destruct (basic acc) as (((a1 & a2) & a3) & a4). cbn. apply pair4; lia.
+  - inversion H as [|? ? Hb Ht]; subst. destruct (meta_dstats_basic _ Hb) as (d & Hd & Hbd). rewrite Hd.
+    destruct (IH (dst_merge acc d) Ht) as (d2 & H2 & B2). exists d2. split; [auto|].
+    rewrite B2, basic_merge, Hbd. apply badd_assoc.
+Qed.
+
+(* truth about dedicated allocations: each is one block and one allocation of its size *)
+Definition ded_truth (v : vam) (slots : list Z) : Z * Z * Z * Z :=
+  fold_right (fun s acc => badd (1, 1, a_size (get_alloc v s), a_size (get_alloc v s)) acc) (0, 0, 0, 0) slots.
+
+Lemma dedicated_dstats_basic v slots : forall acc, basic (dedicated_dstats v slots acc) = badd (basic acc) (ded_truth v slots).
+Proof.
+  unfold dedicated_dstats. induction slots as [|s tl IH]; intros acc; cbn [fold_left ded_truth fold_right].
+  - destruct (basic acc) as (((a1 & a2) & a3) & a4). cbn. apply pair4; lia.
+  - rewrite IH. rewrite <- badd_assoc. f_equal.
+Qed.
+
+(* truth about memory type t: the default list and dedicated list of t, and every custom pool of type t *)
+Definition pools_truth (v : vam) (t : Z) : Z * Z * Z * Z :=
+  fold_right (fun p acc => if bl_type (p_list p) =? t
+                           then badd (badd (blocks_truth (bl_blocks (p_list p))) (ded_truth v (p_ded p))) acc else acc)
+             (0, 0, 0, 0) (v_pools v).
+
+Definition type_truth (v : vam) (t : Z) : Z * Z * Z * Z :=
+  badd (badd (match get_blist v (LDef t) with Some l => blocks_truth (bl_blocks l) | None => (0, 0, 0, 0) end)
+             (pools_truth v t))
+       (ded_truth v (get_dedlist v (LDef t))).
+
+Lemma badd_0_l x : badd (0, 0, 0, 0) x = x.
+Proof. destruct x as (((a1 & a2) & a3) & a4). reflexivity. Qed.
+Lemma badd_0_r x : badd x (0, 0, 0, 0) = x.
+Proof. destruct x as (((a1 & a2) & a3) & a4). cbn. apply pair4; lia. Qed.
+
+Theorem stats_equal_truth c v t :
+  VamInv c v -> exists d, type_dstats v t = Some d /\ basic d = type_truth v t.
+Proof.
+  intros HI. unfold type_dstats, type_truth.
+  assert (H0 : exists d0, match get_blist v (LDef t) with Some l => blocks_dstats (bl_blocks l) dst_clear | None => Some dst_clear end = Some d0 /\
+                 basic d0 = match get_blist v (LDef t) with Some l => blocks_truth (bl_blocks l) | None => (0, 0, 0, 0) end).
+  { destruct (get_blist v (LDef t)) as [l|] eqn:G; [|exists dst_clear; split; reflexivity].
+    destruct (blocks_dstats_basic (bl_blocks l) dst_clear (bw_meta _ _ (vi_lists _ _ _ _ HI _ _ G))) as (d & Hd & B).
+    exists d. split; [auto|]. rewrite B. apply badd_0_l. }
+  destruct H0 as (d0 & E0 & B0). rewrite E0. clear E0.
+  assert (Hp : forall ps acc, (forall p, In p ps -> In p (v_pools v)) ->
+            exists d, fold_left (fun acc p => match acc with
+                                             | None => None
+                                             | Some d => if bl_type (p_list p) =? t
+                                                         then match blocks_dstats (bl_blocks (p_list p)) d with
+                                                              | Some d1 => Some (dedicated_dstats v (p_ded p) d1)
+                                                              | None => None end
+                                                         else Some d end) ps (Some acc) = Some d /\
+                      basic d = badd (basic acc)
+                                  (fold_right (fun p acc => if bl_type (p_list p) =? t
+                                     then badd (badd (blocks_truth (bl_blocks (p_list p))) (ded_truth v (p_ded p))) acc else acc)
+                                     (0, 0, 0, 0) ps)).
+  { induction ps as [|p ps IH]; intros acc Hin; cbn [fold_left fold_right].
+    - exists acc. split; [reflexivity|]. symmetry. apply badd_0_r.
+    - destruct (bl_type (p_list p) =? t) eqn:Et.
+      + assert (G : get_blist v (LPool (p_uid p)) = Some (p_list p)).
+        { cbn. pose proof (Hin p (or_introl eq_refl)) as Hp0.
+          assert (F : find_pool (v_pools v) (p_uid p) = Some p).
+          { clear - Hp0 HI. pose proof (vi_pools_nodup _ _ _ _ HI) as Hnd. revert Hnd Hp0. generalize (v_pools v).
+            induction l as [|x l IHl]; cbn; [tauto|]. intros Hnd [->|H]; [rewrite Z.eqb_refl; reflexivity|].
+            inversion Hnd as [|? ? Hx Hr]; subst. destruct (p_uid x =? p_uid p) eqn:E; [|auto].
+            exfalso. apply Hx. apply Z.eqb_eq in E. rewrite E. apply in_map. auto. }
+          rewrite F. reflexivity. }
+        destruct (blocks_dstats_basic (bl_blocks (p_list p)) acc (bw_meta _ _ (vi_lists _ _ _ _ HI _ _ G))) as (d1 & H1 & B1).
+        rewrite H1. destruct (IH (dedicated_dstats v (p_ded p) d1) (fun q Hq => Hin q (or_intror Hq))) as (d2 & H2 & B2).
+        exists d2. split; [auto|]. rewrite B2, dedicated_dstats_basic, B1, !badd_assoc. reflexivity.
+      + apply IH. intros q Hq. apply Hin. right. auto. }
+  destruct (Hp (v_pools v) d0 (fun p H => H)) as (d1 & E1 & B1). rewrite E1.
+  eexists. split; [reflexivity|]. rewrite dedicated_dstats_basic, B1, B0. reflexivity.
+Qed.
+
+(* ---------------------------------------------------------------- C20: a successful Allocator.Destroy leaves nothing behind *)
+
+Lemma destroy_blocks_frame c bs : forall v ty v' r, destroy_blocks c v ty bs = (v', r) ->
+  (forall lr, get_blist v' lr = get_blist v lr) /\ (forall lr, get_dedlist v' lr = get_dedlist v lr) /\ v_pools v' = v_pools v.
+Proof.
+  induction bs as [|b tl IH]; intros v ty v' r H; cbn [destroy_blocks] in H.
+  - injection H as <- _. auto.
+  - unfold destroy_block in H. destruct (negb (meta_is_empty (bk_meta b))).
+    { injection H as <- _. auto. }
+    destruct (free_vk c (v_m v) ty (meta_size (bk_meta b)) (bk_mem b)) as (m1 & r1).
+    assert (F : (forall lr, get_blist (set_m v m1) lr = get_blist v lr) /\
+                (forall lr, get_dedlist (set_m v m1) lr = get_dedlist v lr) /\ v_pools (set_m v m1) = v_pools v).
+    { split; [intros; apply get_blist_set_m|]. split; [intros; apply get_dedlist_set_m|reflexivity]. }
+    destruct r1 as [[]|code| |]; try (injection H as <- _; exact F).
+    destruct (IH _ _ _ _ H) as (A & B & C0). destruct F as (A1 & B1 & C1).
+    split; [intros; rewrite A; apply A1|]. split; [intros; rewrite B; apply B1|congruence].
+Qed.
+
+Lemma bl_destroy_other c v lr v' r : bl_destroy c v lr = (v', r) -> forall lr', lr' <> lr -> get_blist v' lr' = get_blist v lr'.
+Proof.
+  unfold bl_destroy. intros H lr' Hne. destruct (get_blist v lr) as [l|]; [|injection H as <- _; reflexivity].
+  destruct (existsb _ _); [injection H as <- _; reflexivity|].
+  destruct (destroy_blocks c v (bl_type l) (bl_blocks l)) as (v1 & r1) eqn:E.
+  destruct (destroy_blocks_frame c _ _ _ _ _ E) as (A & _).
+  destruct r1 as [[]|code| |]; try (injection H as <- _; apply A).
+  destruct (get_blist v1 lr) as [l1|]; injection H as <- _; [|apply A].
+  rewrite get_set_blist_other by congruence. apply A.
+Qed.
+
+Lemma destroy_lists_clean c (Hc : cfg_ok c) n : forall v t v',
+  VamInv c v -> destroy_lists c v n t = (v', OK tt) ->
+  (forall t0 l, t0 < t -> get_blist v (LDef t0) = Some l -> bl_blocks l = []) ->
+  VamInv c v' /\ (forall lr, get_dedlist v' lr = get_dedlist v lr) /\ map p_uid (v_pools v') = map p_uid (v_pools v) /\
+  (forall t0 l, t0 < t + Z.of_nat n -> get_blist v' (LDef t0) = Some l -> bl_blocks l = []).
+Proof.
+  induction n as [|k IH]; intros v t v' HI H Hdone; cbn [destroy_lists] in H.
+  - injection H as <-. split; [auto|]. split; [auto|]. split; [auto|]. intros t0 l Ht. apply Hdone. lia.
+  - destruct (get_blist v (LDef t)) as [l0|] eqn:G.
+    + pose proof (bl_destroy_inv c v [] [] (LDef t) HI) as BD. pose proof (bl_destroy_other c v (LDef t)) as BO.
+      destruct (bl_destroy c v (LDef t)) as (v1 & r1). specialize (BO _ _ eq_refl).
+      destruct r1 as [[]|code| |]; try discriminate.
+      destruct BD as ((I1 & T1 & L1) & l' & G' & E').
+      destruct (IH v1 (t + 1) v' I1 H) as (A & B & C0 & D).
+      { intros t0 l Ht Hg. destruct (Z.eq_dec t0 t) as [->|Hne]; [congruence|].
+        rewrite BO in Hg by congruence. apply (Hdone t0); [lia|auto]. }
+      split; [auto|]. split; [intros lr; rewrite B; apply (lf_ded _ _ L1)|]. split; [rewrite C0; apply (lf_uids _ _ L1)|].
+      intros t0 l Ht. apply D. lia.
+    + destruct (IH v (t + 1) v' HI H) as (A & B & C0 & D).
+      { intros t0 l Ht Hg. destruct (Z.eq_dec t0 t) as [->|Hne]; [congruence|]. apply (Hdone t0); [lia|auto]. }
+      split; [auto|]. split; [auto|]. split; [auto|]. intros t0 l Ht. apply D. lia.
+Qed.
+
+Lemma existsb_false_forall {A} (f : A -> bool) l : existsb f l = false -> forall x, In x l -> f x = false.
+Proof.
+  intros H x Hx. destruct (f x) eqn:E; [|reflexivity].
+  assert (existsb f l = true) by (apply existsb_exists; exists x; auto). congruence.
+Qed.
+
+(* after a successful Allocator.Destroy the allocator holds no block, no pool, no dedicated allocation, the
+   device holds no memory object at all, and no Allocation object is allocated *)
+Theorem destroy_clean c v v' :
+  cfg_ok c -> VamInv c v -> allocator_destroy c v = (v', OK tt) ->
+  VamInv c v' /\ m_mems (v_m v') = [] /\ v_pools v' = [] /\
+  (forall lr l, get_blist v' lr = Some l -> bl_blocks l = []) /\ (forall lr, get_dedlist v' lr = []) /\
+  (forall s a, ~ slot_is v' s a).
+Proof.
+  intros Hc HI H. unfold allocator_destroy in H.
+  destruct (existsb _ (v_ded v)) eqn:Ed; [discriminate|].
+  destruct (v_pools v) as [|p ps] eqn:Ep; [|discriminate].
+  destruct (existsb list_nonempty (v_lists v)) eqn:El; [discriminate|].
+  destruct (destroy_lists_clean c Hc _ v 0 v' HI H) as (I' & D & P & B).
+  { intros t0 l Ht Hg. cbn in Hg. unfold nth_z in Hg. destruct (t0 <? 0) eqn:E; [discriminate|]. apply Z.ltb_ge in E. lia. }
+  assert (Hp : v_pools v' = []).
+  { rewrite Ep in P. cbn in P. destruct (v_pools v'); [reflexivity|discriminate]. }
+  assert (Hd : forall lr, get_dedlist v' lr = []).
+  { intros lr. rewrite D. destruct lr as [t|uid]; cbn; [|rewrite Ep; reflexivity].
+    destruct (nth_z (v_ded v) t) as [d|] eqn:E; [|reflexivity].
+    pose proof (existsb_false_forall _ _ Ed d (nth_z_in _ _ _ E)) as F. destruct d; [reflexivity|discriminate]. }
+  assert (Hb : forall lr l, get_blist v' lr = Some l -> bl_blocks l = []).
+  { intros lr l Hg. destruct lr as [t|uid]; [|cbn in Hg; rewrite Hp in Hg; discriminate].
+    apply (B t); [|exact Hg]. cbn in Hg. destruct (nth_z (v_lists v') t) as [x|] eqn:E; [|discriminate].
+    apply nth_z_some_range in E. unfold zlen in E. rewrite (vi_lists_len _ _ _ _ I') in E. lia. }
+  assert (Hs : forall s a, ~ slot_is v' s a).
+  { intros s a Sa. destruct (vi_slots _ _ _ _ I' s a Sa (fun H => H)) as [(K & l & b & rg & G & Bk & _)|(K & [Hin|[]] & _)].
+    - rewrite (Hb _ _ G) in Bk. destruct Bk.
+    - rewrite Hd in Hin. destruct Hin. }
+  split; [auto|]. split; [|auto].
+  destruct (m_mems (v_m v')) as [|d ms] eqn:Em; [reflexivity|exfalso].
+  destruct (vi_dev_owned _ _ _ _ I' d) as [(lr & l & b & G & Bk & _)|(s & a & Sa & _)].
+  - rewrite Em. left. reflexivity.
+  - rewrite (Hb _ _ G) in Bk. destruct Bk.
+  - eapply Hs; eauto.
+Qed.
+
+(* with nothing allocated and no pool left, Allocator.Destroy never refuses (the budget's out-of-domain panic is
+   the only other outcome; it is excluded for reachable states by the accounting invariant, see VamAcct) *)
+Lemma destroy_lists_no_error c (Hc : cfg_ok c) n : forall v t v' code,
+  VamInv c v -> (forall s a, ~ slot_is v s a) -> destroy_lists c v n t = (v', ER code) -> False.
+Proof.
+  induction n as [|k IH]; intros v t v' code HI Hno H; cbn [destroy_lists] in H; [discriminate|].
+  destruct (get_blist v (LDef t)) as [l0|] eqn:G; [|eapply IH; eauto].
+  pose proof (bl_destroy_inv c v [] [] (LDef t) HI) as BD.
+  destruct (bl_destroy c v (LDef t)) as (v1 & r1). destruct r1 as [[]|code1| |]; try discriminate.
+  - destruct BD as ((I1 & T1 & L1) & _). eapply (IH v1); eauto.
+    intros s a Sa. apply (Hno s a). apply (proj1 (slot_is_frame v v1 [] s a T1 (fun H => H))). exact Sa.
+  - destruct BD as (_ & l & b & G1 & B1 & E1).
+    rewrite (unreferenced_blocks_empty c v (LDef t) l HI G1 (fun s a Sa _ => Hno s a Sa) b B1) in E1. discriminate.
+Qed.
+
+Theorem destroy_succeeds c v v' r :
+  cfg_ok c -> VamInv c v -> (forall s a, ~ slot_is v s a) -> v_pools v = [] ->
+  allocator_destroy c v = (v', r) -> r = OK tt \/ r = PANIC \/ r = STUCK.
+Proof.
+  intros Hc HI Hno Hp H. unfold allocator_destroy in H. rewrite Hp in H.
+  destruct (existsb _ (v_ded v)) eqn:Ed.
+  { exfalso. apply existsb_exists in Ed. destruct Ed as (d & Hd & Hne). destruct d as [|s tl]; [discriminate|].
+    apply In_nth_error in Hd. destruct Hd as (n & Hn).
+    assert (Hin : In s (get_dedlist v (LDef (Z.of_nat n)))).
+    { cbn. unfold nth_z. destruct (Z.of_nat n <? 0) eqn:E; [apply Z.ltb_lt in E; lia|]. rewrite Nat2Z.id, Hn. left. reflexivity. }
+    destruct (vi_dedlists _ _ _ _ HI _ _ Hin) as (a & Sa & _). eapply Hno; eauto. }
+  destruct (existsb list_nonempty (v_lists v)) eqn:El.
+  { exfalso. apply existsb_exists in El. destruct El as (o & Ho & Hne). destruct o as [l|]; [|discriminate].
+    cbn in Hne. apply existsb_exists in Hne. destruct Hne as (b & Hb & Hn).
+    apply In_nth_error in Ho. destruct Ho as (n & Hn').
+    assert (G : get_blist v (LDef (Z.of_nat n)) = Some l).
+    { cbn. unfold nth_z. destruct (Z.of_nat n <? 0) eqn:E; [apply Z.ltb_lt in E; lia|]. rewrite Nat2Z.id, Hn'. reflexivity. }
+    rewrite (unreferenced_blocks_empty c v _ l HI G (fun s a Sa _ => Hno s a Sa) b Hb) in Hn. discriminate. }
+  destruct r as [[]|code| |]; auto. exfalso. eapply destroy_lists_no_error; eauto.
+Qed.
